@@ -5,6 +5,7 @@ import (
 	"go/constant"
 	"go/token"
 	"go/types"
+	"os"
 	"regexp"
 	"sort"
 	"strings"
@@ -206,6 +207,13 @@ func c13(c *Ctx) {
 	c13ParsedHelloImmutable(c)
 	c13ListsFromWire(c)
 	c13HTTPS(c)
+	c13HelloCallbackAlwaysRuns(c)
+	for _, svc := range Services(c) {
+		if svc.Type.Obj().Name() == "httpsService" || os.Getenv("HT_SWEEP") != "" {
+			channelWired(c, "https-events-delivered", svc)
+		}
+	}
+	c.Floor("https-events-delivered", 1, "httpsService sends on the embedded http service's channel")
 }
 
 func c13JA3(c *Ctx, ja3 *ssa.Function) {
